@@ -481,3 +481,15 @@ def requeue_order(r: Report, rid: str, fn: FuncInfo, reader: FuncInfo, queue_att
     r.check(not (tail_puts and producer and skips_deliverable) or ordered, rid, f"{fn.qualname}#requeue-order",
             f"frames set aside while waiting are appended to the tail of self.{queue_attr}, which {reader.name} fills concurrently, and this consumer can set aside frames "
             "that a later read delivers to the user: they are delivered after frames that arrived later (reads out of order)", loc=fn.loc)
+
+
+def line_needs_delimiter(m: Model, r: Report, rid: str) -> None:
+    """LinesTransportMixin.read: a line that does not end with the delimiter is the remainder of a message whose sender died (readline
+    returns it at end-of-stream); it must not be decoded and handed out as a message."""
+    rd = m.require_function("gallia.transports.base.LinesTransportMixin.read")
+    lv = [n.targets[0].id for n in ast.walk(rd.node) if isinstance(n, ast.Assign) and isinstance(n.targets[0], ast.Name) and ".readline()" in ast.unparse(n.value)]
+    tests = [n for n in ast.walk(rd.node) if isinstance(n, ast.Call) and isinstance(n.func, ast.Attribute) and n.func.attr == "endswith" and isinstance(n.func.value, ast.Name)
+             and n.func.value.id in lv and n.args and isinstance(n.args[0], ast.Constant) and n.args[0].value in (b"\n", "\n")]
+    r.check(bool(lv) and bool(tests), rid, f"{rd.qualname}#incomplete-line",
+            "the line read from the stream is decoded without checking that it ends with the delimiter: when the peer dies in the middle of a message, readline() returns "
+            "the partial line at end-of-stream and read() delivers a truncated message as if it were complete", loc=rd.loc)
